@@ -58,6 +58,14 @@ def dims(mode, tree="flat", nkeys=2, maxpre=2, **kw):
     return d
 
 
+# dimensions under which the store's own policy takes *partial* compactions: values of very different sizes
+# (segments in different levels), small level parameters, and a fragmentation threshold that never forces a full one
+def partial(**kw):
+    d = dict(compaction="allow", levelMaxSegs=2, levelMult=2, compactionPct=1.0, concr="sized")
+    d.update(kw)
+    return d
+
+
 # --- per property: what TLC checks, what is generated, over which harness dimensions it is replayed,
 # --- and which observations the property is about.
 def plan(prop, tier):
@@ -77,12 +85,20 @@ def plan(prop, tier):
             "c01_walk_mem": [dims("mem"), dims("mem", deferredSort=True, minMergePct=1e9)],
             "c01_edges": [dims("store", nkeys=1), dims("app", nkeys=1), dims("store", nkeys=1, compaction="force")],
         }
-        P["relevant"] = r"^snapshot\.(get|iter|fault)"
+        P["goals"] = [("c01_goal_shapes", C(NKeys=1, OpAlpha='{"s1","s2","d"}', MaxOps=1, MaxBatches=4, MaxPokes=1), ["GoalAllSections", "GoalIngestWhileBase", "GoalSwapAfterPersist"]),
+                      ("c01_goal_shapes_cp", C(NKeys=1, OpAlpha='{"s1","s2","d"}', MaxOps=1, MaxBatches=4, MaxPokes=1, CachePersisted="TRUE"), ["GoalAllSections", "GoalIngestWhileBase"])]
+        P["dims"]["c01_goal_shapes"] = [dims("store", nkeys=1), dims("app", nkeys=1)]
+        P["dims"]["c01_goal_shapes_cp"] = [dims("store", nkeys=1, cachePersisted=True), dims("app", nkeys=1, cachePersisted=True)]
+        P["goals"].append(("c01_goal_shadow_cp", C(NKeys=2, OpAlpha='{"s1","s2","d"}', MaxOps=1, MaxBatches=3, MaxPokes=0, CachePersisted="TRUE"), ["GoalBaseShadowsClean"]))
+        P["dims"]["c01_goal_shadow_cp"] = [dims("store", cachePersisted=True), dims("app", cachePersisted=True)]
+        P["dims"]["c01_walk"].append(dims("store", **partial()))
+        P["relevant"] = r"^snapshot\.(get|iter|fault|seek)"
         P["rule"] = ("behaviours = TLC random walks / one per transition of MossColl, replayed with gated merger and persister; "
                      "distinct by action sequence; non-trivial = at some observation two or more of top/mid/base/clean were non-empty "
                      "(a read had to cross a section boundary)")
     elif prop == "C10":
-        P["exhaustive"] = [("c10_small", C(MaxBatches=2 if q else 3, MaxOps=2, MaxPokes=1), ["DirectGetAgrees", "ViewIsRef"])]
+        P["exhaustive"] = [("c10_small", C(MaxBatches=2 if q else 3, MaxOps=2, MaxPokes=1), ["DirectGetAgrees", "ViewIsRef"]),
+                           ("c10_cache", C(NKeys=2, OpAlpha='{"s1","m1"}', MaxOps=1, MaxBatches=3, MaxSnaps=1, MaxPokes=0), ["CachedMemIsMem", "CachedIsRef", "ViewIsRef"])]
         P["sim"] = [("c10_walk", C(MaxBatches=6, MaxPokes=2, SimLen=18, OpAlpha='{"s1","s2","se","d"}'), 60 if q else 400),
                     ("c10_walk_mrg", C(MaxBatches=6, MaxPokes=2, SimLen=18, OpAlpha='{"s1","d","m1","m2"}'), 40 if q else 300),
                     ("c10_walk_cp", C(MaxBatches=6, MaxPokes=2, SimLen=18, CachePersisted="TRUE"), 30 if q else 200)]
@@ -93,7 +109,10 @@ def plan(prop, tier):
                      "c10_walk_mem": [dims("mem"), dims("mem", deferredSort=True)],
                      "c10_walk_cp": [dims("store", cachePersisted=True)]}
         P["leads"] = [("c10_lead", C(NKeys=1, OpAlpha='{"s1","d","m1"}', MaxOps=1, MaxBatches=3), ["DirectGetChainsOnNil"], ["LeadDirectGetAgrees"])]
-        P["dims"]["c10_lead"] = [dims("store", nkeys=1), dims("mem", nkeys=1)] if False else [dims("store", nkeys=1)]
+        P["dims"]["c10_lead"] = [dims("store", nkeys=1)]
+        # states in which a cached snapshot would be stale for SkipLowerLevel reads (L29)
+        P["leads"].append(("c10_lead_cache", C(NKeys=2, OpAlpha='{"s1","m1"}', MaxOps=1, MaxBatches=3, MaxSnaps=1, MaxPokes=0), ["SwapKeepsCachedSnapshot"], ["LeadCachedMemIsMem"]))
+        P["dims"]["c10_lead_cache"] = [dims("store")]
         P["relevant"] = r"^coll\.get"
         P["rule"] = ("as C01; after every step Collection.Get, Snapshot.Get and the iteration entry of every key are compared "
                      "(with and without NoCopyValue); non-trivial = two or more sections non-empty at some observation")
@@ -105,8 +124,9 @@ def plan(prop, tier):
                     ("c02_walk_mem", C(MaxBatches=6, MaxPokes=2, SimLen=16, MaxSnaps=2, HasLL="FALSE", LLInit="FALSE"), 30 if q else 200)]
         P["edges"] = []
         P["sim"].append(("c02_walk_pre", C(MaxBatches=5, MaxPokes=2, SimLen=18, MaxSnaps=1, MaxReopens=1, InitKeys="{1}"), 60 if q else 400))
-        P["dims"] = {"c02_walk_pre": [dims("store", preload=[1]), dims("store", preload=[1], compaction="force")],
-                     "c02_walk": [dims("store", compaction="force"), dims("store", compaction="allow", levelMaxSegs=1, levelMult=2), dims("store", cachePersisted=False, deferredSort=True), dims("app")],
+        P["dims"] = {"c02_walk_pre": [dims("store", preload=[1], rolling=True), dims("store", preload=[1], compaction="force"), dims("store", preload=[1], rolling=True, **partial())],
+                     "c02_walk": [dims("store", compaction="force", rolling=True), dims("store", compaction="allow", levelMaxSegs=1, levelMult=2),
+                                  dims("store", cachePersisted=False, deferredSort=True, rolling=True), dims("app", rolling=True), dims("store", rolling=True, **partial())],
                      "c02_walk_kids": [dims("store", "a", 1, compaction="force"), dims("store", "a", 1)],
                      "c02_walk_mem": [dims("mem")]}
         P["relevant"] = r"^heldsnap|^heldstore"
@@ -117,9 +137,13 @@ def plan(prop, tier):
         P["sim"] = [("c04_walk", C(MaxBatches=6, MaxPokes=2, SimLen=24, MaxReopens=2, OpAlpha='{"s1","s2","se","d"}'), 100 if q else 600),
                     ("c04_walk_kids", C(Tree='"aa"', NKeys=1, OpAlpha='{"s1","se","d"}', MaxOps=1, MaxBatches=6, MaxPokes=2, SimLen=24, MaxReopens=2), 80 if q else 500)]
         P["edges"] = []
-        P["dims"] = {"c04_walk": [dims("store"), dims("store", compaction="force"), dims("store", compaction="allow", levelMaxSegs=2, levelMult=2), dims("store", noSync=True, deferredSort=True)],
-                     "c04_walk_kids": [dims("store", "aa", 1), dims("store", "aa", 1, compaction="force"), dims("store", "aa", 1, compaction="allow", levelMaxSegs=1, levelMult=2)]}
-        P["relevant"] = r"^reopen|^lower"
+        P["sim"].append(("c04_walk_pre", C(MaxBatches=8, MaxPokes=1, SimLen=34, MaxReopens=2, OpAlpha='{"s1","s2","d"}', InitKeys="{1}"), 100 if q else 600))
+        P["dims"] = {"c04_walk": [dims("store"), dims("store", compaction="force"), dims("store", compaction="allow", levelMaxSegs=2, levelMult=2), dims("store", noSync=True, deferredSort=True),
+                                  dims("store", **partial())],
+                     "c04_walk_pre": [dims("store", preload=[1], **partial(levelMaxSegs=1)), dims("store", preload=[1], **partial())],
+                     "c04_walk_kids": [dims("store", "aa", 1), dims("store", "aa", 1, compaction="force"), dims("store", "aa", 1, compaction="allow", levelMaxSegs=1, levelMult=2),
+                                       dims("store", "aa", 1, **partial())]}
+        P["relevant"] = r"^reopen|^lower|^conformance|^gauges0\.lower"
         P["rule"] = ("behaviours with Close at arbitrary points relative to merger/persister progress and up to 2 close/reopen cycles, store-backed; after reopen the content must be "
                      "the reference (when the model says persistence had caught up) or the reference after a prefix; non-trivial = behaviour contains a Reopen")
     elif prop == "C08":
@@ -130,13 +154,21 @@ def plan(prop, tier):
                     ("c08_walk_mem", C(NKeys=2, OpAlpha='{"s1","d","m1","m2"}', MaxBatches=7, MaxPokes=2, SimLen=16, HasLL="FALSE", LLInit="FALSE"), 40 if q else 300)]
         P["edges"] = []
         P["sim"].append(("c08_walk_app", C(NKeys=2, OpAlpha='{"s1","d","m1","m2"}', MaxBatches=7, MaxPokes=2, SimLen=22, LLInit="FALSE", MaxErrs=1), 60 if q else 400))
-        P["dims"] = {"c08_walk": [dims("store"), dims("store", compaction="force"), dims("store", compaction="allow", levelMaxSegs=2, levelMult=2)],
+        P["dims"] = {"c08_walk": [dims("store"), dims("store", compaction="force"), dims("store", compaction="allow", levelMaxSegs=2, levelMult=2), dims("store", **partial())],
                      "c08_walk_app": [dims("app"), dims("app", deferredSort=True)],
                      "c08_walk_cp": [dims("store", cachePersisted=True), dims("app", cachePersisted=True)],
                      "c08_walk_kid": [dims("store", "a", 1), dims("store", "a", 1, compaction="force")],
                      "c08_walk_mem": [dims("mem"), dims("mem", minMergePct=1e9)]}
         P["leads"] = [("c08_lead", C(NKeys=1, OpAlpha='{"s1","d","m1"}', MaxOps=1, MaxBatches=3, CachePersisted="TRUE"), ["CleanKeepsMergeOps"], ["LeadViewIsRef"])]
         P["dims"]["c08_lead"] = [dims("store", nkeys=1, cachePersisted=True)]
+        if not q:
+            # merge operands of a child collection resolved against a base whose child lower level snapshot is stale (L30); 0.8 M states
+            P["leads"].append(("c08_lead_kid", C(Tree='"a"', NKeys=1, OpAlpha='{"m1"}', MaxOps=1, MaxBatches=4, MaxPokes=1), ["MergeBaseUsesBaseLL"], ["LeadViewIsRef"]))
+            P["dims"]["c08_lead_kid"] = [dims("store", "a", 1)]
+        P["goals"] = [("c08_goal_shapes", C(NKeys=2, OpAlpha='{"s1","m1","m2"}', MaxOps=1 if q else 2, MaxBatches=3, MaxPokes=1), ["GoalAllSections", "GoalIngestWhileBase", "GoalSwapAfterPersist"])]
+        P["dims"]["c08_goal_shapes"] = [dims("store"), dims("app")]
+        P["goals"].append(("c08_goal_mrg_ll", C(NKeys=2, OpAlpha='{"s1","m1","m2"}', MaxOps=1, MaxBatches=3, MaxPokes=0), ["GoalMergeOverLL"]))
+        P["dims"]["c08_goal_mrg_ll"] = [dims("store"), dims("app"), dims("store", cachePersisted=True)]
         P["relevant"] = r"^(snapshot|coll|lower|reopen|heldsnap)"
         P["rule"] = ("behaviours over set/del/mrg with the non-commutative append operator; every read path at every step; non-trivial = the behaviour contains a Merge and "
                      "two or more sections were non-empty at some observation")
@@ -146,12 +178,15 @@ def plan(prop, tier):
                     ("c11_walk_ab", C(Tree='"ab"', NKeys=1, OpAlpha='{"s1","d"}', MaxOps=1, MaxBatches=7, MaxPokes=2, SimLen=22, MaxReopens=1), 80 if q else 500),
                     ("c11_walk_mem", C(Tree='"aa"', NKeys=1, OpAlpha='{"s1","s2","d"}', MaxOps=1, MaxBatches=7, MaxPokes=2, SimLen=16, HasLL="FALSE", LLInit="FALSE"), 40 if q else 300)]
         P["edges"] = []
-        P["dims"] = {"c11_walk": [dims("store", "aa", 1), dims("store", "aa", 1, compaction="force"), dims("store", "aa", 1, compaction="allow", levelMaxSegs=1, levelMult=2)],
+        P["dims"] = {"c11_walk": [dims("store", "aa", 1), dims("store", "aa", 1, compaction="force"), dims("store", "aa", 1, compaction="allow", levelMaxSegs=1, levelMult=2),
+                                  dims("store", "aa", 1, **partial())],
                      "c11_walk_ab": [dims("store", "ab", 1), dims("store", "ab", 1, compaction="allow", levelMaxSegs=2, levelMult=2)],
                      "c11_walk_mem": [dims("mem", "aa", 1)]}
         P["leads"] = [("c11_lead", C(Tree='"a"', NKeys=1, OpAlpha='{"s1"}', MaxOps=1, MaxBatches=3, MaxPokes=0), ["ChildLLByNameOnly"], ["LeadViewIsRef"])]
         P["dims"]["c11_lead"] = [dims("store", "a", 1), dims("store", "a", 1, compaction="force")]
-        P["relevant"] = r"^(snapshot|lower|reopen|heldsnap)\.(names|child)|^(snapshot|lower|reopen|heldsnap)\.(get|iter)#child"
+        P["goals"] = [("c11_goal_recreate", C(Tree='"a"', NKeys=1, OpAlpha='{"s1"}', MaxOps=1, MaxBatches=3, MaxPokes=0, MaxReopens=1), ["GoalRecreatedAfterReopen"])]
+        P["dims"]["c11_goal_recreate"] = [dims("store", "a", 1), dims("store", "a", 1, compaction="force")]
+        P["relevant"] = r"^(snapshot|lower|reopen|heldsnap)\.(names|child)|^(snapshot|lower|reopen|heldsnap)\.(get|iter)#child|^conformance"
         P["rule"] = ("behaviours over a tree of child names (create, write, child-only batches, delete, recreate, nested children); names and content of every child at every "
                      "nesting level read from collection snapshots, the store snapshot and after reopen; non-trivial = some child was deleted or recreated in the behaviour")
     elif prop == "C13":
@@ -161,7 +196,9 @@ def plan(prop, tier):
         P["edges"] = []
         P["dims"] = {"c13_walk": [dims("app"), dims("app", deferredSort=True, minMergePct=1e9)],
                      "c13_walk_cp": [dims("app", cachePersisted=True)]}
-        P["relevant"] = r"^lower|^snapshot"
+        P["goals"] = [("c13_goal_idle", C(NKeys=1, OpAlpha='{"s1","d"}', MaxOps=1, MaxBatches=3, MaxPokes=2, LLInit="FALSE"), ["GoalDataBehindIdleRound", "GoalSwapAfterPersist"])]
+        P["dims"]["c13_goal_idle"] = [dims("app", nkeys=1), dims("app", nkeys=1, cachePersisted=True)]
+        P["relevant"] = r"^lower|^snapshot|^conformance"
         P["rule"] = ("behaviours with an application lower level applying the documented protocol, any pattern of LowerLevelUpdate failures; after every step the application's "
                      "store must be the reference after a prefix and the collection view the full reference; non-trivial = the behaviour contains a failed update or two non-empty sections")
     elif prop == "C20":
@@ -175,7 +212,7 @@ def plan(prop, tier):
                      "c20_walk_cp": [dims("store", cachePersisted=True)]}
         P["leads"] = [("c20_lead", C(Tree='"a"', NKeys=1, OpAlpha='{"s1","d"}', MaxOps=1, MaxBatches=2, MaxPokes=0), ["GaugesRootOnly"], ["LeadGaugesZeroImpliesPersisted"])]
         P["dims"]["c20_lead"] = [dims("store", "a", 1)]
-        P["relevant"] = r"^gauges0"
+        P["relevant"] = r"^gauges0|^conformance"
         P["rule"] = ("Stats() sampled after every step of every behaviour; whenever all three dirty gauges are zero the lower level's own snapshot is compared with the reference; "
                      "non-trivial = the gauges were zero at some observation after the first batch")
     elif prop == "C19":
@@ -186,12 +223,37 @@ def plan(prop, tier):
                                   for i, c in enumerate(["disable", "force", "allow", "disable"] if q else ["disable", "force", "allow"] * 4)]
 }
         P["sim"].append(("c19_walk_zero", C(NKeys=2, MaxBatches=6, MaxOps=1, MaxPokes=2, SimLen=22, MaxReopens=1, OpAlpha='{"s1","se","d"}'), 80 if q else 500))
-        P["dims"]["c19_walk_zero"] = [dims("store", nkeys=2, concr="emptykey"), dims("store", nkeys=2, concr="emptykey", compaction="force"), dims("mem", nkeys=2, concr="emptykey")] if False else \
-            [dims("store", nkeys=2, concr="emptykey"), dims("store", nkeys=2, concr="emptykey", compaction="force")]
-        P["relevant"] = r"^(snapshot|coll|lower|reopen|heldsnap)"
+        P["dims"]["c19_walk"] += [dims("store", nkeys=3, concr="edge", seed=sd0, allocBatches=True), dims("store", nkeys=3, concr="edge", seed=sd0 + 1, allocBatches=True, opOrder="desc")]
+        P["dims"]["c19_walk_zero"] = [dims("store", nkeys=2, concr="emptykey"), dims("store", nkeys=2, concr="emptykey", compaction="force"),
+                                      dims("store", nkeys=2, concr="emptykey", allocBatches=True), dims("store", nkeys=2, concr="emptykey", allocBatches=True, opOrder="desc"),
+                                      dims("store", nkeys=2, concr="emptykey", opOrder="desc", compaction="force")]
+        # oversize operations (rejected, must not disturb the rest of the batch) in plain, Alloc-built and mixed batches
+        P["sim"].append(("c19_walk_rej", C(NKeys=2, MaxBatches=5, MaxOps=2, MaxPokes=1, SimLen=16, MaxReopens=1, OpAlpha='{"s1","s2","d","m1","xk","xv"}'), 50 if q else 400))
+        P["dims"]["c19_walk_rej"] = [dims("store", nkeys=2), dims("store", nkeys=2, allocBatches=True), dims("store", nkeys=2, allocBatches=True, allocMix=True, compaction="force")]
+        # the longest accepted key (2^24-1 bytes) and page-multiple values; thorough: the longest accepted value (2^28-1 bytes)
+        P["sim"].append(("c19_walk_lim", C(NKeys=2, MaxBatches=4, MaxOps=2, MaxPokes=1, SimLen=14, MaxReopens=1, OpAlpha='{"s1","s2","d","m1"}'), 16 if q else 80))
+        P["dims"]["c19_walk_lim"] = [dims("store", nkeys=2, concr="limits"), dims("store", nkeys=2, concr="limits", compaction="force", allocBatches=True)]
+        if not q:
+            P["sim"].append(("c19_walk_lim28", C(NKeys=1, MaxBatches=3, MaxOps=1, MaxPokes=1, SimLen=10, MaxReopens=1, OpAlpha='{"s1","s2","d"}'), 6))
+            P["dims"]["c19_walk_lim28"] = [dims("store", nkeys=1, concr="limits28", shards=2), dims("store", nkeys=1, concr="limits28", allocBatches=True, compaction="force", shards=2)]
+        P["relevant"] = r"^(snapshot|coll|lower|reopen|heldsnap|batch)"
         P["rule"] = ("the data-path behaviours replayed under seeded adversarial concretisations (empty key, 0x00/0xFF, magic-like bytes, prefix-sharing keys, empty values); "
                      "non-trivial = two or more sections non-empty at some observation")
 
+    elif prop == "C07":
+        P["exhaustive"] = []
+        P["sim"] = [("c07_walk_kids", C(Tree='"a"', NKeys=2, OpAlpha='{"s1","s2","d"}', MaxOps=2, MaxBatches=8, MaxPokes=1, SimLen=30, MaxReopens=1), 100 if q else 800),
+                    ("c07_walk_flat", C(NKeys=2, OpAlpha='{"s1","s2","d"}', MaxOps=2, MaxBatches=8, MaxPokes=1, SimLen=30, MaxReopens=1), 60 if q else 500),
+                    ("c07_walk_pre", C(Tree='"a"', NKeys=2, OpAlpha='{"s1","s2","d"}', MaxOps=2, MaxBatches=8, MaxPokes=1, SimLen=34, MaxReopens=1, InitKeys="{1}"), 60 if q else 500)]
+        P["edges"] = []
+        allow = [partial(levelMaxSegs=m, levelMult=x) for (m, x) in ((2, 2), (2, 3), (3, 2))] + [dict(compaction="allow", levelMaxSegs=1, levelMult=2)]
+        P["dims"] = {"c07_walk_kids": [dims("store", "a", 2, **a) for a in allow] + [dims("store", "a", 2, compaction="force")],
+                     "c07_walk_flat": [dims("store", **a) for a in allow[:2]],
+                     "c07_walk_pre": [dims("store", "a", 2, preload=[1], **a) for a in (partial(levelMaxSegs=1), partial())]}
+        P["relevant"] = r"^(lower|snapshot|reopen|heldstore|conformance)"
+        P["rule"] = ("store-backed MossColl behaviours (overwrites, deletions, a child collection, reopen) replayed under CompactionAllow with small level parameters, so that the "
+                     "implementation's own policy takes partial compactions at several splice points, and under CompactionForce; the store content and the collection content are "
+                     "compared with the reference after every persistence round; non-trivial = two or more sections non-empty at some observation")
     elif prop == "C15":
         import check_store
         P["exhaustive"] = [("c15_handles", C(NKeys=1, OpAlpha='{"s1"}', MaxOps=1, MaxBatches=2, MaxSnaps=2, MaxReopens=1, MaxPokes=0), ["ViewIsRef", "Structure"]),
@@ -201,12 +263,12 @@ def plan(prop, tier):
                     ("c15_walk_kids", C(Tree='"aa"', NKeys=1, OpAlpha='{"s1","d"}', MaxOps=1, MaxBatches=6, MaxPokes=2, SimLen=22, MaxSnaps=2, MaxReopens=1), 80 if q else 600)]
         P["edges"] = []
         P["leads"] = [("c15_lead_refs", check_store.C(MaxBatches=3, MaxSnaps=1, MaxReopens=1, Kinds='{"append","full"}'), ["ChildFootersNotReleased"], ["LeadAllClosedAllReleased"], "MCStore.tla")]
-        P["dims"] = {"c15_walk": [dims("store", preload=[1], leakCheck=True), dims("store", preload=[1], leakCheck=True, compaction="force", closeOrder="storeFirst"),
+        P["dims"] = {"c15_walk": [dims("store", preload=[1], leakCheck=True, rolling=True), dims("store", preload=[1], leakCheck=True, compaction="force", closeOrder="storeFirst"),
                                   dims("store", preload=[1], leakCheck=True, compaction="force", keepFiles=True)],
                      "c15_walk_kids": [dims("store", "aa", 1, leakCheck=True), dims("store", "aa", 1, leakCheck=True, compaction="force"),
                                        dims("store", "aa", 1, leakCheck=True, compaction="allow", levelMaxSegs=1, levelMult=2, closeOrder="storeFirst")],
                      "c15_lead_refs": []}
-        P["relevant"] = r"^leak\.|^heldsnap|^heldstore"
+        P["relevant"] = r"^leak\.|^heldsnap|^heldstore|^persister\.exit"
         P["rule"] = ("behaviours with collection snapshots, child snapshots and a store snapshot held across batches, persistence, forced compaction, Close and reopen; every held "
                      "handle is re-read after every step; when the behaviour ends (and after every CloseEnd with nothing held) everything left open is closed in the order "
                      "the dimensions choose and /proc/self/fd, /proc/self/maps and the directory listing are polled; non-trivial = a handle was held across a persistence round or a close")
@@ -223,9 +285,21 @@ def generate(rep, work, name, consts, kind, n, sd):
     raw = []
     if kind == "sim":
         vlib.write_cfg(cfg, consts, next_="SimNext", invariants=["SimPrint"], view="view")
-        per = max(1, n // 8)
+        per = max(1, (n * 3) // 8)   # 8 TLC workers; measured: about one distinct behaviour per requested walk
         res = vlib.run_tlc("MCColl.tla", cfg, work, simulate=(per, 40, sd), workers=8, timeout=600, beh_sink=raw.append)
         rep.transitions += res.generated
+    elif kind == "goal":
+        vlib.write_cfg(cfg, consts, invariants=n, view="view")
+        res = vlib.run_tlc("MCColl.tla", cfg, work, timeout=1200, beh_sink=raw.append)
+        rep.add_tlc(name + " (goal-directed behaviours: %s)" % ",".join(n), res, consts)
+        behs = vlib.dedup_behaviours(raw)
+        behs.sort(key=len)
+        cap = 200 if os.environ.get("VERIF_TIER", "quick") == "quick" else 2000
+        if len(behs) > cap:
+            step = len(behs) / float(cap)
+            behs = [behs[int(i * step)] for i in range(cap)]
+        rep.extra.setdefault("goals", []).append({"config": name, "goals": n, "goal_states": len(raw), "replayed": len(behs)})
+        return behs
     elif kind == "lead":
         devs_, invs = n
         consts["Devs"] = vlib.tla_set(devs_)
@@ -289,6 +363,8 @@ def classify(rep, prop, relevant, findings, results, behs, d, cfgname):
             rep.infra.append("%s dims=%s behaviour %d: %s" % (cfgname, json.dumps(d), r["id"], r.get("infra")))
             continue
         rep.traces += 1
+        rep.extra["partial_compactions_exercised"] = rep.extra.get("partial_compactions_exercised", 0) + r.get("partial", 0)
+        rep.extra["full_compactions_exercised"] = rep.extra.get("full_compactions_exercised", 0) + r.get("full", 0)
         if nontrivial(prop, r, behs[r["id"]]):
             rep.nontrivial.add((cfgname, r["id"]))
         reported = False
@@ -318,9 +394,15 @@ def classify(rep, prop, relevant, findings, results, behs, d, cfgname):
 
 def run(prop, tier):
     rep = vlib.Report(prop, tier)
+    run_into(rep, prop, tier)
+    return rep.finish()
+
+
+def run_into(rep, prop, tier):
+    """Run the plan of `prop` and add what it finds to the report `rep` (which may belong to another engine)."""
     P = plan(prop, tier)
-    rep.rule = P["rule"]
-    work = vlib.scratch(prop)
+    rep.rule = (rep.rule + " || " if rep.rule else "") + P["rule"]
+    work = vlib.scratch(prop + "-coll")
     vlib.build_harness(("replay",))
     findings = vlib.load_findings()
     sd = vlib.seed()
@@ -341,7 +423,8 @@ def run(prop, tier):
     # 2+3. behaviours and replay
     os.environ["VERIF_TIER"] = tier
     gens = [("sim", n, c, cnt) for (n, c, cnt) in P["sim"]] + [("edges", n, c, 0) for (n, c) in P["edges"]] \
-        + [("lead", n, c, (dv, iv)) for (n, c, dv, iv) in [l[:4] for l in P.get("leads", []) if len(l) == 4]]
+        + [("lead", n, c, (dv, iv)) for (n, c, dv, iv) in [l[:4] for l in P.get("leads", []) if len(l) == 4]] \
+        + [("goal", n, c, g) for (n, c, g) in P.get("goals", [])]
     for l in [l for l in P.get("leads", []) if len(l) > 4]:   # leads of another module: model-level vacuity guard only
         n, c, dv, iv, module = l
         c = dict(c)
@@ -365,12 +448,13 @@ def run(prop, tier):
         for d in P["dims"][name]:
             d = dict(d)
             d.setdefault("seed", sd)
-            results, infra = vlib.run_replay(bp, d)
+            nsh = d.pop("shards", None)   # memory-hungry dimensions run fewer shards at a time
+            results, infra = vlib.run_replay(bp, d, nshards=nsh)
             rep.infra += infra
             rep.evaluations += len(results)
             classify(rep, prop, P["relevant"], findings, results, behs, d, name)
             log("%s: %s dims=%s: %d behaviours replayed, %d violations so far" % (prop, name, json.dumps(d), len(results), len(rep.violations)))
-    rep.assumptions = [
+    rep.assumptions += [
         "TLC and the CommunityModules Json module",
         "verif hooks are placed at the linearization points DESIGN.md section 8 lists",
         "expected values are computed by TLC (MossColl!Expect); the harness has no reference model",
@@ -378,7 +462,6 @@ def run(prop, tier):
     ]
     import shutil
     shutil.rmtree(work, ignore_errors=True)
-    return rep.finish()
 
 
 def replay(prop, path):
